@@ -346,8 +346,10 @@ class ModelCompiler:
                 elif isinstance(defn, xltypes.XLRange):
                     for row in defn.cells:
                         for column in row:
-                            extracted_model.cells[column] = copy.deepcopy(
-                                model.cells[column])
+                            # Empty cells of the sheet are not in the model.
+                            if column in model.cells:
+                                extracted_model.cells[column] = copy.deepcopy(
+                                    model.cells[column])
 
         terms_to_copy = []
         for addr, cell in extracted_model.cells.items():
